@@ -151,7 +151,10 @@ func RunHarness(ld *Loaded, spec HarnessSpec) (*HarnessResult, error) {
 		spec.Workers = 16
 	}
 	if spec.Solver == "" {
-		spec.Solver = "z3"
+		spec.Solver = "z3-new" // z3 5.1.0: its incremental bit-vector core is 10-30x faster than 4.8.12 on these queries
+		if s := os.Getenv("VERIF_SOLVER"); s != "" {
+			spec.Solver = s
+		}
 	}
 	if spec.Timeout == 0 {
 		spec.Timeout = 20000
